@@ -976,7 +976,7 @@ def c17_w2(ctx):
 
 
 # ================================================================ C17-H11 / C17-W3
-@rule("C17", "C17-H11", 4, "a limit reached outside the Cancelled phase is declared through the fault handler: the timeout dispatch abandons directly only in the Cancelled phase (where running the handler again could cancel once more)", also=("C10",))
+@rule("C17", "C17-H11", 2, "a limit reached outside the Cancelled phase is declared through the fault handler: the timeout dispatch abandons directly only in the Cancelled phase (where running the handler again could cancel once more)", also=("C10",))
 def c17_h11(ctx):
     n = 0
     for adt, nm in TXNS:
@@ -992,7 +992,21 @@ def c17_h11(ctx):
             cnt += 1
             key = "%s::handle_timeout:abandon" % nm + ("#%d" % cnt if cnt > 1 else "")
             ws = [dict(w) for w in fl.at_term(b)]
-            good = bool(ws) and all((lambda v: v is not None and v[0] and set(v[1]) == {"Cancelled"})(w.get(("val", field))) for w in ws)
+            tyname = [f.locals[1]["ty"]]
+            universe = set()
+            for g in ctx.prog.adts if hasattr(ctx.prog, "adts") else ():
+                pass
+            vn = ctx.prog.variant_names("cfdp_daemon::transaction::recv::RecvState" if adt == RECV else "cfdp_daemon::transaction::send::SendState") or {}
+            universe = set(vn.values())
+
+            def only_cancelled(v):
+                if v is None:
+                    return False
+                if v[0]:
+                    return set(v[1]) == {"Cancelled"}
+                return bool(universe) and (universe - set(v[1])) == {"Cancelled"}
+
+            good = bool(ws) and all(only_cancelled(w.get(("val", field))) for w in ws)
             if good:
                 yield ok("C17-H11", key, at(f, t["span"]["line"]), "abandon under %s == Cancelled" % field)
             else:
@@ -1001,7 +1015,7 @@ def c17_h11(ctx):
         raise Anchor("C17-H11", "abandon() in the timeout dispatch")
 
 
-@rule("C17", "C17-W3", 4, "a PDU is marked for retransmission only because its own ACK timer expired: the pending flag of the EOF (sender) / Finished (receiver) is set to true only in the timeout dispatch under that timer's timeout_occurred(), or where the PDU is first prepared")
+@rule("C17", "C17-W3", 2, "a PDU is marked for retransmission only because its own ACK timer expired: the pending flag of the EOF (sender) / Finished (receiver) is set to true only in the timeout dispatch under that timer's timeout_occurred(), or where the PDU is first prepared")
 def c17_w3(ctx):
     n = 0
     for adt, nm, setter in ((SEND, "SendTransaction", "set_eof_flag"), (RECV, "RecvTransaction", "set_finished_flag")):
